@@ -257,8 +257,31 @@ func runC02(c *Ctx) {
 		if fn != nil {
 			for _, an := range withAnon(fn) {
 				for _, ci := range allCalls(an) {
-					if b, isB := ci.Common().Value.(*ssa.Builtin); isB && b.Name() == "recover" {
-						ok = true
+					b, isB := ci.Common().Value.(*ssa.Builtin)
+					if !isB || b.Name() != "recover" {
+						continue
+					}
+					// from the "recovered something" edge a store into the enclosing function's error result is reachable
+					for _, ef := range edgeFacts(an) {
+						iff := ef.From.Instrs[len(ef.From.Instrs)-1].(*ssa.If)
+						bo, isBo := iff.Cond.(*ssa.BinOp)
+						if !isBo || bo.X != ci.Value() || !isNilConst(bo.Y) {
+							continue
+						}
+						if (bo.Op == token.NEQ && ef.Succ == 0) || (bo.Op == token.EQL && ef.Succ == 1) {
+							start := ef.From.Succs[ef.Succ]
+							reach := reachFromAvoiding([]*ssa.BasicBlock{start}, nil)
+							reach[start] = true
+							for blk := range reach {
+								for _, in := range blk.Instrs {
+									if st, isSt := in.(*ssa.Store); isSt {
+										if fv, isFV := st.Addr.(*ssa.FreeVar); isFV && isErrorType(fv.Type().Underlying().(*types.Pointer).Elem()) {
+											ok = true
+										}
+									}
+								}
+							}
+						}
 					}
 				}
 			}
@@ -484,7 +507,7 @@ func (c *Ctx) indexGuarded(fn *ssa.Function, at ssa.Instruction, base ssa.Value,
 		case "==":
 			return n > idx
 		case "!=":
-			return false
+			return n == 0 && idx == 0 // len != 0 ⇒ len ≥ 1
 		}
 		return false
 	}
